@@ -17,10 +17,10 @@ EXTENDS Integers, Sequences, FiniteSets, TLC
 VARIABLES parts,     \* set of [r, off, len, fd, foff]: live shared file mappings
           fds,       \* descriptors opened inside the current operation bracket, still open
           owner,     \* slot -> region of its buffer (for drops)
-          cur        \* current bracket: [op, slot, before, um (something was unmapped in it)] or "none"
+          cur        \* current bracket: [op, slot, before, um (something was unmapped in it), size] or "none"
 
 vars == <<parts, fds, owner, cur>>
-Init == parts = {} /\ fds = {} /\ owner = <<>> /\ cur = [op |-> "none", slot |-> 0, before |-> {}, um |-> FALSE]
+Init == parts = {} /\ fds = {} /\ owner = <<>> /\ cur = [op |-> "none", slot |-> 0, before |-> {}, um |-> FALSE, size |-> 0]
 
 Overlaps(p, r, off, len) == p.r = r /\ p.off < off + len /\ off < p.off + p.len
 (* mmap of len bytes at (r, off): replaces whatever it overlaps (MAP_FIXED   *)
